@@ -46,6 +46,7 @@ type Exec struct {
 	discover int
 	curBlock *ssa.BasicBlock // block of the call instruction being executed
 	sitePost map[string]*State // state right after the k-th contract call of a callee in the top function (aftercall)
+	siteRes  map[string]Value  // what that call returned (callresult)
 	siteHits map[string]int  // callsite clauses matched by a call
 	globals  map[string]string
 	usedSpecs map[string]bool
